@@ -32,6 +32,7 @@ def Adm (sp : Spec.S) : Op → Prop
   | .stream n => n ≠ sstKey
   | .save w s o => NonEmpty w ∧ NonEmpty o ∧ s.len ≠ 0 ∧
       (sp.dirty = false → ∀ b, load (Spec.wsWrite (storeAll sp.m o) w sp.loaded) Facts.C12.sstPath = some b → s = b)
+  | .forget _ _ => False   -- DeleteSheet is outside the refinement: see `finding_deleted_spilled_part_survives`
   | _ => True
 
 def outOk : Out → Out → Prop
